@@ -130,8 +130,22 @@ pub fn run_shard(prop: &Prop, tier: Tier, shard: usize, n: usize, out: &PathBuf,
     }
     let mut results: BTreeMap<String, Value> = BTreeMap::new();
     let mut task = 0usize;
+    // developer aid (never a verdict: the parent turns the note into exit 2): run only units whose name contains the text
+    let only = std::env::var("VERIF_DEV_ONLY_UNITS").ok().filter(|s| !s.is_empty());
     for u in &prop.units {
         let mut st = Stats::new();
+        if let Some(o) = &only {
+            if !u.name.contains(o.as_str()) {
+                *st.notes.entry("MACHINERY: developer unit filter VERIF_DEV_ONLY_UNITS is set; this run is not a verdict".into()).or_insert(0) += 1;
+                let mut j = st.to_json();
+                j["chunks_run"] = json!(0);
+                j["capped"] = json!(false);
+                j["stopped_early"] = json!(false);
+                results.insert(u.name.clone(), j);
+                task += u.chunks as usize;
+                continue;
+            }
+        }
         let mut capped = false;
         let mut ran = 0u64;
         ctx.unit = u.name.clone();
@@ -333,8 +347,19 @@ pub fn run_check(prop: &Prop, tier: Tier) -> i32 {
     }
     let mach: Vec<String> = total.notes.keys().filter(|k| k.starts_with("MACHINERY")).cloned().collect();
     if !mach.is_empty() {
-        for m in mach {
+        for m in mach.iter() {
             println!("MACHINERY-ERROR: {}", m);
+        }
+        if mach.iter().all(|m| m.contains("VERIF_DEV_ONLY_UNITS")) {
+            // developer aid: show what the selected units found, still exit 2 (never a verdict, no evidence written)
+            for (name, st) in &merged {
+                if st.cases > 0 || st.violations_total > 0 {
+                    println!("  dev unit={} cases={} violations={} notes={:?}", name, st.cases, st.violations_total, st.notes.iter().filter(|(k, _)| !k.starts_with("MACHINERY")).collect::<Vec<_>>());
+                    for v in st.violations.iter().take(3) {
+                        println!("    what={} case={}", v.what, compact(&v.case));
+                    }
+                }
+            }
         }
         return 2;
     }
